@@ -43,9 +43,11 @@ namespace
     {
         igris::deserialize_buffer_storage storage(igris::buffer(p, n));
         threw = false;
+        keep(&out);
         try
         {
             out = igris::deserialize<T>(storage);
+            keep(&out);
         }
         catch (mc::Abort &)
         {
